@@ -54,7 +54,7 @@ func c10cGen(t *rapid.T) c10cCase {
 	var c c10cCase
 	c.RecvPerStream = rapid.SampledFrom([]int32{0, 1, 100, 4096, 16384, 65535, 1 << 20}).Draw(t, "per_stream")
 	c.RecvPerConn = rapid.SampledFrom([]int32{0, 65535, 100000, 1 << 20, 1<<31 - 1 - 65535}).Draw(t, "per_conn")
-	if rapid.IntRange(0, 15).Draw(t, "max_per_conn") == 0 {
+	if rapid.IntRange(0, 31).Draw(t, "max_per_conn") == 17 {
 		c.RecvPerConn = 1<<31 - 1 // the largest value the configuration accepts
 	}
 	c.MaxReadFrame = rapid.SampledFrom([]uint32{0, 16384, 65536}).Draw(t, "max_read_frame")
